@@ -407,6 +407,13 @@ def C19(ctx):
                 d = d[:-1] + R.choice([b"\x80", b"\x00"])
             cases.append(op_pad(1, d, bs, gen="pad: block size 1..32 × length 0..4·bs"))
             cases.append(op_pad(2, d, bs, gen="pad: block size 1..32 × length 0..4·bs"))
+    # block sizes beyond the usual ones: every remainder class sampled, lengths around multiples
+    for bs in [33, 48, 63, 64, 65, 72, 96, 100, 127, 128, 129, 200, 255, 256, 257, 300, 512, 1000, 1024, 4096, 65536] + [R.randrange(33, 2000) for _ in range(ctx.n(10, 60))]:
+        lens = {0, 1, 2, 7, 8, bs - 65, bs - 64, bs - 63, bs - 2, bs - 1, bs, bs + 1, 2 * bs - 1, 2 * bs, 2 * bs + 1} | {R.randrange(0, 3 * bs) for _ in range(6)}
+        for n in sorted(x for x in lens if x >= 0):
+            d = R.randbytes(n) if n < 5000 else R.randbytes(1) * n
+            cases.append(op_pad(1, d, bs, gen="pad: block sizes 33..65536"))
+            cases.append(op_pad(2, d, bs, gen="pad: block sizes 33..65536"))
     for n in range(0, 40):
         cases.append(op_pad(1, R.randbytes(n), None, gen="pad default block size")); cases.append(op_pad(2, R.randbytes(n), None, gen="pad default block size"))
     cases.append(op_pad(1, b"abc", 0, gen="pad block size 0")); cases.append(op_pad(2, b"", 0, gen="pad block size 0"))
